@@ -8,6 +8,7 @@ the list abstraction is preserved inductively by each step.
 import re
 
 import an
+import kstorage
 import nf
 import seqctor
 from an import P, F, L, BITS, add, sub, mul, c, cmp, canon, gset, gshow, short
@@ -211,6 +212,10 @@ def run(ctx, chk):
                 # the vector returned is the one that was extended, and nothing else touched it
                 chk.ob("S-extend", "FromIterator<A> for Seq", bool(ok),
                        "from_iter must be with_capacity(..) then extend(iter.into_iter()); got %s with %s" % (show(nb)[:80], [(short(x[0]), [show(a) for a in x[1][1:]]) for x in evs]), b["span"])
+        kstorage.unchecked_scan(chk, cfg)
+        # copies: Clone / ToOwned define only clone / to_owned (no clone_from / clone_into shortcuts without a row)
+        an.no_overrides(chk, bio, "I-override", "Seq", "std::clone::Clone", r"^seq::Seq<A>$", ("clone",))
+        an.no_overrides(chk, bio, "I-override", "SeqSlice", "std::borrow::ToOwned", r"^seq::slice::SeqSlice<A>$", ("to_owned",))
         # ---- I-align over constructors; independence of copies ----
         seqctor.check(chk, cfg, "I-align")
     chk.floor("mutator rows over all configurations", nrows, 8 * len(chk.configs))
